@@ -109,6 +109,9 @@ def fault_specs(tier):
         out.append((s, "prep-exits", 0))
         # the driver's metrics store fails when it is closed after the last step (it only persists on close)
         out.append((s, "store-close-raises", 0))
+        # the metrics store goes down for good: the n-th write fails and so does every later write and the close (which persists)
+        for n in (0, 7):
+            out.append((s, "store-breaks", n))
         out.append((s, "worker-dies", 0))
         out.append((s, "cancel", 0))
     # the driver's metrics store fails during the *periodic* post-processing (the load generators keep running), and the user cancels:
@@ -483,6 +486,28 @@ def check_race(spec, ch, res):
             return orig_close(self, *a, **k)
 
         m.InMemoryMetricsStore.close = failing_close
+    if kind == "store-breaks":
+
+        def in_driver():
+            sim = s.get("sim")
+            return sim is not None and sim.current_actor is not None and sim.actors[sim.current_actor].cls.__name__ == "DriverActor"
+
+        def breaking_put(self, *a, **k):
+            if in_driver():
+                state["store_calls"] += 1
+                if state["store_calls"] >= where + 1:
+                    if state["fault_time"] is None:
+                        state["fault_time"] = CLOCK.now
+                    raise RuntimeError("injected metrics store failure (store is down)")
+            return orig_put(self, *a, **k)
+
+        def breaking_close(self, *a, **k):
+            if in_driver() and state["fault_time"] is not None:
+                raise RuntimeError("injected metrics store failure on close (store is down)")
+            return orig_close(self, *a, **k)
+
+        m.InMemoryMetricsStore.put_value_cluster_level = breaking_put
+        m.InMemoryMetricsStore.close = breaking_close
     del loadgen.FIRED[:]
     import sys
 
@@ -497,7 +522,7 @@ def check_race(spec, ch, res):
     finally:
         m.InMemoryMetricsStore.put_value_cluster_level = orig_put
         m.InMemoryMetricsStore.bulk_add = orig_bulk_add
-        if kind == "store-close-raises":
+        if kind in ("store-close-raises", "store-breaks"):
             if had_close:
                 m.InMemoryMetricsStore.close = orig_close
             else:
